@@ -27,6 +27,9 @@ pub static REJECTED: std::sync::atomic::AtomicU64 = std::sync::atomic::AtomicU64
 
 pub struct Compiled {
     pub programs: Vec<Program>,
+    /// the parsed expression of each program (None if the tree's parser rejected the source): lets the
+    /// harness make pristine copies of a program cheaply (`Program::from_expression(ast.clone())`)
+    pub asts: Vec<Option<cel_parser::Expression>>,
     /// sorted (variables, functions) reported by `references()` right after compilation
     pub refs: Vec<(Vec<String>, Vec<String>)>,
 }
@@ -65,7 +68,25 @@ pub fn compile_all(w: &Workload, use_ast: bool) -> Result<Compiled, String> {
         programs.push(prog);
     }
     let refs = programs.iter().map(refs_of).collect();
-    Ok(Compiled { programs, refs })
+    let asts = w
+        .programs
+        .iter()
+        .map(|p| {
+            if use_ast {
+                p.ast.as_ref().map(crate::astio::to_expr)
+            } else {
+                catch_unwind(AssertUnwindSafe(|| cel_parser::Parser::default().parse(&p.src))).ok().and_then(|r| r.ok())
+            }
+        })
+        .collect();
+    Ok(Compiled { programs, refs, asts })
+}
+
+impl Compiled {
+    /// A pristine copy of program `i` (None if its source could not be parsed).
+    pub fn fresh(&self, i: usize) -> Option<Program> {
+        self.asts[i].as_ref().map(|a| Program::from_expression(a.clone()))
+    }
 }
 
 #[derive(Clone, Debug)]
@@ -253,6 +274,10 @@ struct Runner<'a, 'w> {
     sched: Option<Arc<Sched>>,
     /// what the scheduler is told about the execution in flight (1 + scope depth, 100 = shared root)
     exec_code: u8,
+    /// Solo (reference) phase: this thread's own pristine copies of the programs, so that "what it
+    /// would yield alone" does not depend on what other threads' reference runs left in the shared
+    /// program objects. None = use the shared program (sequential and concurrent phases).
+    own_programs: Vec<Option<Program>>,
 }
 
 impl<'a, 'w> Runner<'a, 'w> {
@@ -601,7 +626,13 @@ impl<'a, 'w> Runner<'a, 'w> {
                     );
                 }
                 Op::Exec { prog, target, fault, retain } => {
-                    let program = &sh.compiled.programs[*prog % sh.compiled.programs.len()];
+                    let pi = *prog % sh.compiled.programs.len();
+                    // (the pristine copy is moved out for the duration of the call: `self` is borrowed mutably below)
+                    let own = if pi < self.own_programs.len() { self.own_programs[pi].take() } else { None };
+                    let program = match &own {
+                        Some(p) => p,
+                        None => &sh.compiled.programs[pi],
+                    };
                     let target = if *target == Target::Private && private.is_none() { Target::Inner } else { *target };
                     let ctx: &Context = match target {
                         Target::Inner => cur,
@@ -622,6 +653,9 @@ impl<'a, 'w> Runner<'a, 'w> {
                     let (outcome, val) = self.do_recorded(idx, *fault, &mut || execute_keep(program, ctx));
                     if self.phase == Phase::Sequential && !self.sh.stopped() {
                         self.sequential_oracles(idx, *prog % sh.compiled.programs.len(), target, ctx, &outcome);
+                    }
+                    if let Some(p) = own {
+                        self.own_programs[pi] = Some(p);
                     }
                     if *retain {
                         if let Some(v) = val {
@@ -750,8 +784,8 @@ impl<'a, 'w> Runner<'a, 'w> {
             // program": if the long-lived Program object no longer behaves like a pristine compile of the
             // same source, it was changed — state kept in the Program is shared by every context, so no
             // twin *context* can reveal it)
-            if !sh.use_ast && mix(&[key, 0x9906]) % 8 == 0 {
-                if let Ok(Ok(fresh_program)) = catch_unwind(AssertUnwindSafe(|| Program::compile(&w.programs[prog].src))) {
+            if mix(&[key, 0x9906]) % 2 == 0 {
+                if let Some(fresh_program) = sh.compiled.fresh(prog) {
                     let mut got2: Option<Outcome> = None;
                     self.with_twin(false, target, &mut |tw| {
                         tls::begin_exec(key ^ 0x0051_7e00, fail_at);
@@ -761,7 +795,7 @@ impl<'a, 'w> Runner<'a, 'w> {
                     self.stats.twin_fresh_program_compared += 1;
                     if let Some(g) = got2 {
                         if &g != outcome {
-                            let d = format!("{}: a freshly compiled copy of the same source, on a freshly built equal context, gives a different result than the long-lived program object", self.describe_op(idx));
+                            let d = format!("{}: a pristine copy of the same program, on a freshly built equal context, gives a different result than the long-lived program object", self.describe_op(idx));
                             self.violate("I3-fresh-program", idx, g.show(), outcome.show(), d);
                             return;
                         }
@@ -885,6 +919,7 @@ fn run_thread<'a, 'w>(
             stats: RunStats::default(),
             sched: sched.clone(),
             exec_code: 1,
+            own_programs: if phase == Phase::Solo { (0..sh.compiled.programs.len()).map(|i| sh.compiled.fresh(i)).collect() } else { Vec::new() },
         };
         let mut base = root.new_inner_scope();
         let mut pos = 0usize;
